@@ -27,6 +27,13 @@ public:
     bool start();
     void stop();
 
+#ifdef EPHEMERALNET_VERIF
+    // Verification hooks (read-only): resource accounting for the fuzz/property harnesses.
+    std::size_t verif_session_count() const { return sessions_.size(); }
+    std::size_t verif_registration_count() const { return registered_.size(); }
+    int verif_listen_fd() const { return listen_fd_; }
+#endif
+
 private:
     enum class SessionState {
         AwaitingCommand,
